@@ -557,4 +557,41 @@ theorem parseUri_fromParts (sch h : Str) (p : Option Nat) (args : Args) (hs : Sc
   rw [splitNetloc_eq h hok p args]
   simp only [hostPortOf_netloc h hok p hp, queryPart_qpartOf args, pathPart_qpartOf args, qsFlat_queryOf args ha, lower_scheme hs]
 
+theorem find_filter_ne (k k2 : Str) (hk : k2 ≠ k) (l : Args) :
+    (l.filter (fun x => x.1 ≠ k2)).find? (fun x => x.1 = k) = l.find? (fun x => x.1 = k) := by
+  induction l with
+  | nil => rfl
+  | cons x xs ih =>
+    by_cases hxk : x.1 = k2
+    · have h1 : (decide (x.1 ≠ k2)) = false := by simp [hxk]
+      have h2 : decide (x.1 = k) = false := by rw [hxk]; simpa using hk
+      rw [List.filter_cons, h1]
+      simp only [Bool.false_eq_true, if_false]
+      rw [List.find?_cons, h2]
+      exact ih
+    · have h1 : (decide (x.1 ≠ k2)) = true := by simp [hxk]
+      rw [List.filter_cons, h1]
+      simp only [if_true]
+      rw [List.find?_cons, List.find?_cons, ih]
+
+theorem cleanUrl_keep (sch rest : Str) (hs : SchemeOK sch) (hr : ∀ c ∈ rest, c ≠ '\t' ∧ c ≠ '\r' ∧ c ≠ '\n') :
+    cleanUrl (sch ++ rest) = sch ++ rest := by
+  obtain ⟨c, t, hct, _⟩ := hs.head
+  have hv : ∀ x ∈ sch, visible x = true := fun x hx => schemeCh_visible (hs.chars x hx)
+  unfold cleanUrl
+  have h1 : (sch ++ rest).dropWhile (fun c => decide (c.toNat ≤ 32)) = sch ++ rest := by
+    have := hv c (by simp [hct])
+    simp only [visible, decide_eq_true_eq] at this
+    have hn : ¬ c.toNat ≤ 32 := by omega
+    simp [hct, List.dropWhile, hn]
+  rw [h1]
+  apply List.filter_eq_self.mpr
+  intro x hx
+  simp only [ne_eq, decide_eq_true_eq]
+  rcases List.mem_append.mp hx with hx | hx
+  · have := hv x hx
+    simp only [visible, decide_eq_true_eq] at this
+    refine ⟨?_, ?_, ?_⟩ <;> (intro e; subst e; simp at this)
+  · exact hr x hx
+
 end Gallia.Parse
